@@ -486,6 +486,8 @@ def check_basic(ctx, F, by_name, tag):
                                      # size_of_val of the vector's own element slice is the same number of bytes
                                      m(Call("std::mem::size_of_val", Call(lambda x: x.startswith("std::vec::Vec::<") and x.endswith("::as_slice"), Param(0))), write_len) or
                                      m(Call("std::mem::size_of_val", Call(lambda x: x.endswith("::deref") and "Vec" in x, Param(0))), write_len))
+    if write_len is None and len(wa) == 1:
+        okw = None          # one write_all, of a slice the rule cannot read back to (pointer, length): undecided
     ctx.ob("C06.R2.basic.vec-body", "Vec<V>" + tag, where, okw, "formula", "body writes len(self) * size_of::<V>() bytes: %s" % (tstr(write_len) if write_len else "?"))
     lb = f["load"]
     L = serfmt.load_seq(lb)
@@ -505,7 +507,13 @@ def check_basic(ctx, F, by_name, tag):
             sbi, st_ = sl[0]
             okl = okl and core(lb.term_of_operand(st_["args"][1])) == core(size) and core(lb.term_of_operand(st_["args"][0])) == core(env.get("vec"))
             sites = [s for s in try_sites(lb) if s["src_local"] == re[0][1]["dest"]["l"]]
-            okl = okl and len(sites) == 1 and sites[0]["cont_block"] is not None and lb.dominates(sites[0]["cont_block"], sbi)
+            on_success = len(sites) == 1 and sites[0]["cont_block"] is not None and lb.dominates(sites[0]["cont_block"], sbi)
+            if not sites:
+                # the same written as a match: set_len lies behind the fact that the read's result is Ok
+                rd = re[0][1]["dest"]["l"]
+                on_success = any(f_[0] == "discr" and f_[2] == 0 and any(x[:2] == ("var", rd) or (x[0] == "call" and x[1].endswith("::read_exact")) for x in subterms(f_[1]))
+                                 for f_ in facts_at(lb, sbi))
+            okl = okl and on_success
             detail = "read_exact(size * size_of::<V>()) into with_capacity(size); set_len(size) only on the read's success edge"
     ctx.ob("C06.R2.basic.vec-load", "Vec<V>" + tag, where, okl, "formula+dominance", detail)
     sb = f["size_in_elements"]
